@@ -665,4 +665,48 @@ func TestC10Names(t *testing.T) {
 	if (c10{}).tag() != "method" || tag() != "func" {
 		rep.Violate("C10/function-address-of-other-symbol", "not original after Reset", nil)
 	}
+	// a symbol whose name ends in "-fm" (the wrapper the compiler makes for a method value) is a symbol of its own: asked
+	// for by that name it is the wrapper that is found and patched, not the method; a name that only exists without the
+	// suffix is absent with it
+	{
+		st := &stepper{n: 1}
+		viaValue := st.step // makes (*stepper).step-fm exist
+		b := mocker.Create()
+		var perr interface{}
+		func() {
+			defer func() { perr = recover() }()
+			b.ExportFunc("(*stepper).step-fm").Apply(func() int { return -1 })
+		}()
+		rep.Eval(2)
+		rep.Class("names/method-value-wrapper")
+		if perr == nil {
+			if direct := st.step(); direct != 2 {
+				rep.Violate("C10/function-address-of-other-symbol", fmt.Sprintf(`ExportFunc("(*stepper).step-fm") (the method-value wrapper): the method itself is diverted, st.step() = %d, want 2`, direct), nil)
+			}
+		}
+		if perr != nil {
+			rep.Note("method-value-wrapper", fmt.Sprintf("the wrapper symbol is not in the table: %v", perr))
+		} else if got := viaValue(); got != -1 {
+			rep.Violate("C10/function-address-wrong", fmt.Sprintf(`ExportFunc("(*stepper).step-fm").Apply: the call through the method value gives %d, want the callback's -1`, got), nil)
+		}
+		func() { defer func() { recover() }(); b.Reset() }()
+		b2 := mocker.Create()
+		perr = nil
+		func() {
+			defer func() { perr = recover() }()
+			b2.ExportFunc("tag-fm").Apply(func() string { return "mocked" })
+		}()
+		if perr == nil || tag() != "func" {
+			rep.Violate("C10/absent-function-resolved", fmt.Sprintf(`ExportFunc("tag-fm") (no such symbol; tag exists): accepted (panic %v), tag() = %q`, perr, tag()), nil)
+		}
+		func() { defer func() { recover() }(); b2.Reset() }()
+		if st.step() != 2 || viaValue() != 2 {
+			rep.Violate("C10/function-address-of-other-symbol", "stepper.step not original after Reset", nil)
+		}
+	}
 }
+
+type stepper struct{ n int }
+
+//go:noinline
+func (s *stepper) step() int { return s.n + 1 }
